@@ -835,3 +835,14 @@ def shared_geometry(ctx: Ctx) -> None:
     from . import C18 as _c18
     from .common import support
     support(ctx, [_c18.r1, _c18.r2, _c18.r3, _c18.r4, _c18.r6, _c18.r7], {"Rectangle.overlap", "Rectangle.area_overlap", "Rectangle.area", "Rectangle.bounding_box", "Rectangle.point_inside"})
+
+
+@rule("C01", "R10.fixed-flag-reaches-the-die", "SHARED(C05)",
+      "the regions of fixed modules are reported by the die because the rectangles the reader builds carry the module's fixed / hard "
+      "flags in every spelling of the rectangle list (flat [x, y, w, h] as well as nested) and on later re-assignment: "
+      "Netlist.fixed_rectangles(), from which the die takes them, selects on that flag -- the C05 flag-propagation rule, for the "
+      "functions the die's input passes through", floor=2)
+def shared_flags(ctx: Ctx) -> None:
+    from . import C05 as _c05
+    from .common import support
+    support(ctx, [_c05.r4], {"parse_yaml_rectangles", "Netlist.assign_rectangles"})
